@@ -260,3 +260,14 @@ def _count_until_loop(ctx, b, rv):
                 'count_until step: %s: a character that straddles the budget is counted, a context can exceed the maximum' % why)
     inits = {l: [core(v) for site, v in local_defs(b, l) if site.bb not in loop.blocks] for l in (cnt, acc)}
     ctx.require(all(len(v) == 1 and match(v[0], Const(0)) for v in inits.values()), b, 'fold', 'count and accumulated length start at 0', None)
+
+
+@rule('C16', 'R-C16-6', 'T11 SIBLING (one segmentation)',
+      'every CharString::new of the windows code receives the caller\'s grapheme flag unchanged (a parameter, configuration field or '
+      'captured variable): a site that "optimises" the flag (e.g. `use_graphemes && !s.is_ascii()`) segments "\\r\\n" and friends '
+      'differently from the sites it must agree with')
+def r_segflag(ctx):
+    from rules.common import check_segmentation_flag
+    n = check_segmentation_flag(ctx, [ctx.body(n) for n in ['windows::char', 'windows::byte', 'windows::windows']], 'windows')
+    if n == 0:
+        raise AnchorMissing('CharString::new sites of the windows code')
